@@ -154,6 +154,40 @@ func c13Gen(g *Gen) {
 				lines = append(lines, "suse i0 "+I+" sess=$s0|"+e)
 			}
 			lines = append(lines, "sclose i0 "+J+" sess=$s0", "sclose i0 "+I+" sess=$s0", "suse i0 "+I+" sess=$s0")
+			// eviction pressure: a FULL small cache, the victim's entry evicted by other identities' /init,
+			// then the victim continues — with another identity's call token, with none (size 1: any policy
+			// that admits new entries has dropped the victim) and with its own (must see its own call)
+			other := J
+			if same {
+				for _, p := range c13Pool {
+					if !tkSameIdent(p, I) && tkSpecIdentKey(p) != tkSpecIdentKey(I) {
+						other = p
+						break
+					}
+				}
+			}
+			third := c13Pool[(indexOf(c13Pool, other)+3)%len(c13Pool)]
+			if tkSameIdent(third, I) || tkSameIdent(third, other) {
+				third = c13Pool[(indexOf(c13Pool, other)+5)%len(c13Pool)]
+			}
+			lines = append(lines,
+				tkInstLine("e1", key, 100000, 1, false, "we1", rh, true),
+				tkInstLine("e2", key, 100000, 2, false, "we2", rh, true),
+				fmt.Sprintf("init e1 %s %s limit=6 sess=- cur=v1 call=vk1", I, m),
+				fmt.Sprintf("init e1 %s %s limit=6 sess=- cur=o1 call=ok1", other, m))
+			cont("e1", I, "$v1", "$ok1", "-")
+			cont("e1", I, "$v1", "-", "-")
+			cont("e1", I, "$v1", "$vk1", "-")
+			cont("e1", other, "$o1", "$vk1", "-")
+			cont("e1", other, "$o1", "$ok1", "-")
+			lines = append(lines,
+				fmt.Sprintf("init e2 %s %s limit=6 sess=- cur=v2 call=vk2", I, m),
+				fmt.Sprintf("init e2 %s %s limit=6 sess=- cur=o2 call=ok2", other, m),
+				fmt.Sprintf("init e2 %s %s limit=6 sess=- cur=t2 call=tk2", third, m))
+			cont("e2", I, "$v2", "$vk2", "-")
+			cont("e2", other, "$o2", "$ok2", "-")
+			cont("e2", third, "$t2", "$tk2", "-")
+			cont("e2", I, "$v2", "$vk2", "-")
 			// afterwards both identities still continue their own streams
 			lines = append(lines, fmt.Sprintf("cont i1 %s %s cur=$%s call=$k0 cancel=0 sess=- out=cz", I, m, cur))
 			lines = append(lines, fmt.Sprintf("cont i0 %s %s cur=$j0 call=$jk0 cancel=0 sess=- out=jz", J, m))
